@@ -36,6 +36,9 @@ Flat(cs) == FlattenSeq(cs)
 Pending == SubSeq(content, Len(Flat(chunks)) + 1, Len(Flat(chunks)) + dc)
 
 EffAutoMin == IF Variant = "fixed" /\ AutoMin > AutoMax THEN AutoMax ELSE AutoMin
+\* (second repair, found by TLC on MC_WriterAutoBigMin.cfg: a configured minimum above the automatic maximum made
+\* zck_end_chunk refuse the forced cut for ever)
+EffChunkMin == IF Variant = "fixed" /\ ~Manual /\ ChunkMin > AutoMax THEN AutoMax ELSE ChunkMin
 
 Init == /\ content \in Contents /\ pos = 0 /\ dc = 0 /\ win = <<>> /\ chunks = <<>>
         /\ call = "idle" /\ loc = 0 /\ locSize = 0 /\ i = 0 /\ closed = FALSE
@@ -58,7 +61,7 @@ StartWrite == /\ call = "idle" /\ ~closed /\ pos < Len(content)
 ManualStep == /\ call = "manual"
               /\ IF dc + locSize > ChunkMax
                  THEN LET k == ChunkMax - dc
-                          e == EndChunk(dc + k, win, chunks, ChunkMin) IN
+                          e == EndChunk(dc + k, win, chunks, EffChunkMin) IN
                       /\ dc' = e.dc /\ win' = e.win /\ chunks' = e.chunks
                       /\ loc' = loc + k /\ locSize' = locSize - k /\ UNCHANGED <<call, i>>
                  ELSE /\ dc' = dc + locSize /\ call' = "idle" /\ UNCHANGED <<win, chunks, loc, locSize, i>>
@@ -73,7 +76,7 @@ AutoStep == /\ call = "auto"
                          IF dc + i < EffAutoMin
                          THEN /\ dc' = dc + i /\ win' = w2 /\ loc' = loc + i /\ locSize' = locSize - i /\ i' = 0
                               /\ UNCHANGED <<chunks, call>>                   \* refused: the same byte is fed again
-                         ELSE LET e == EndChunk(dc + i, w2, chunks, ChunkMin) IN
+                         ELSE LET e == EndChunk(dc + i, w2, chunks, EffChunkMin) IN
                               /\ dc' = e.dc /\ win' = e.win /\ chunks' = e.chunks
                               /\ loc' = loc + i /\ locSize' = locSize - i /\ i' = 0 /\ UNCHANGED call
                     ELSE /\ win' = w2 /\ i' = i + 1 /\ UNCHANGED <<dc, chunks, loc, locSize, call>>
@@ -82,12 +85,12 @@ AutoStep == /\ call = "auto"
 
 \* manual mode only: the user calls zck_end_chunk between writes
 UserEndChunk == /\ Manual /\ call = "idle" /\ ~closed
-                /\ LET e == EndChunk(dc, win, chunks, ChunkMin) IN dc' = e.dc /\ win' = e.win /\ chunks' = e.chunks
+                /\ LET e == EndChunk(dc, win, chunks, EffChunkMin) IN dc' = e.dc /\ win' = e.win /\ chunks' = e.chunks
                 /\ UNCHANGED <<content, pos, call, loc, locSize, i, closed, run, chunks1, tiled>>
 
 \* zck_close: the last chunk is ended (orig: subject to the minimum, so a short last chunk is dropped)
 Close == /\ call = "idle" /\ ~closed /\ pos = Len(content)
-         /\ LET e == EndChunk(dc, win, chunks, IF Variant = "fixed" THEN 0 ELSE ChunkMin) IN
+         /\ LET e == EndChunk(dc, win, chunks, IF Variant = "fixed" THEN 0 ELSE EffChunkMin) IN
                IF run = 1 /\ ~Manual
                THEN \* remember the result and write the same content again through other write sizes
                     /\ chunks1' = e.chunks /\ run' = 2 /\ pos' = 0 /\ dc' = 0 /\ win' = <<>> /\ chunks' = <<>>
